@@ -171,7 +171,12 @@ func VerifH_total_unmarshalsam() {
 			if i == 11 {
 				max = F + 5
 			}
-			line = append(line, verifField("f", max)...)
+			fld := verifField("f", max)
+			if i == 11 && len(fld) > 3 {
+				// float text is strconv.ParseFloat's (not encodable, see DESIGN)
+				vrt.Assume(fld[3] != 'f')
+			}
+			line = append(line, fld...)
 		default:
 			line = append(line, t...)
 		}
